@@ -2,6 +2,7 @@
 //!
 //! * `sync`, `thread`: replacements for the `std::sync` / `std::thread` items rFSM uses, on shuttle.
 //! * `timer`: simulated replacement of the `timer` crate, driven by the simulated clock.
+//! * `http`: simulated transport for the BasicHTTP processor (stub for the TCP listener and `ureq`).
 //! * `probe`: session start / end hooks.
 //! * `collections`: `HashMap` / `HashSet` with a per-run seeded hasher.
 //! * `rec`: OS-thread-local history recorder and simulation bookkeeping.
@@ -9,6 +10,7 @@
 
 pub mod collections;
 pub mod driver;
+pub mod http;
 pub mod probe;
 pub mod rec;
 pub mod sync;
